@@ -119,6 +119,7 @@ def generate(parsed: Parsed, rng, targets=None, seconds=60, obj=None):
         if hasattr(rng, "limit"):
             rng.limit = choice_limit(parsed.ast, [c[2] for c in calls])
     if hasattr(rng, "limit"):
+        rng.count = 0  # the budget is per generation
         rng.limit = choice_limit(parsed.ast, [])
     try:
         with probe.tag_residues(parsed.tok_index) as events, draw_tap(targets, on_draw) as draws:
